@@ -84,6 +84,9 @@ func modelProbes(orig *Spec) [][]PSel {
 		P("interfaces", P("name")), P("possibleTypes", P("name")),
 		P("fields", P("name"), P("type", refSel(3)...)),
 		P("inputFields", P("name"), P("type", refSel(3)...))))})
+	if dirTies {
+		out = append(out, []PSel{P("__schema", P("directives", P("name"), P("args", P("name"), P("type", refSel(3)...))))})
+	}
 	for _, n := range universe(orig) {
 		tp := PSel{Tag: "__type", Arg: n, Sub: []PSel{P("kind"), P("name"),
 			PD("fields", P("name"), P("isDeprecated"), P("type", refSel(4)...), P("args", P("name"), P("type", refSel(4)...))),
